@@ -28,11 +28,13 @@ type C18Peer struct {
 }
 
 type C18Scenario struct {
-	From  uint64    `json:"from"`
-	Len   int       `json:"len"` // number of headers requested: to = from+1+len
-	Chunk uint64    `json:"chunk"`
-	Peers []C18Peer `json:"peers"`           // peer 0 is always fully capable and fault-free ...
-	Split bool      `json:"split,omitempty"` // ... unless split: peers 0 and 1 (both fault-free) hold the range only together
+	// Metrics: the Exchange is built WithMetrics (a configuration that must not change any result)
+	Metrics bool      `json:"metrics,omitempty"`
+	From    uint64    `json:"from"`
+	Len     int       `json:"len"` // number of headers requested: to = from+1+len
+	Chunk   uint64    `json:"chunk"`
+	Peers   []C18Peer `json:"peers"`           // peer 0 is always fully capable and fault-free ...
+	Split   bool      `json:"split,omitempty"` // ... unless split: peers 0 and 1 (both fault-free) hold the range only together
 }
 
 const c18ChainLen = 260
@@ -71,6 +73,7 @@ func genC18(t *rapid.T) C18Scenario {
 		}
 		s.Peers = append(s.Peers, p)
 	}
+	s.Metrics = rapid.IntRange(0, 3).Draw(t, "metrics") == 0
 	return s
 }
 
@@ -113,6 +116,8 @@ func (s *slowStore) HasAt(ctx context.Context, h uint64) bool {
 }
 
 func runC18(t *testing.T, s C18Scenario) (res Result) {
+	exchangeMetrics = s.Metrics
+	defer func() { exchangeMetrics = false }()
 	bubble(t, func() {
 		const timeout = time.Second
 		chain := vh.ChainSpec{ChainID: "c18", N: c18ChainLen, StartMs: -1_000_000}.Build()
